@@ -320,6 +320,8 @@ def eval_case(case):
         return eval_scripted(case)
     if case["sub"] == "reject-run":
         return eval_reject_run(case)
+    if case["sub"] == "platform":
+        return eval_platform(case)
     return eval_sampling(case)
 
 
@@ -336,6 +338,7 @@ def shards(ctx):
         for k in range(parts):
             out.append({"sub": "sampling", "routine": name, "part": k, "parts": parts})
     out.append({"sub": "scripted"})
+    out.append({"sub": "platform"})
     for name in ROUTINES:
         out.append({"sub": "reject-run", "routine": name})
     return out
@@ -387,7 +390,23 @@ def eval_reject_run(case):
     return msgs
 
 
+PLATFORM_GROUPS = ("zp_from_hash", "scalar_hash_reduce", "g1affine_from_hash", "g2affine_from_hash", "lqibe_id", "zp_random", "g1_random", "g2_random", "gt_multiply_random")
+
+
+def eval_platform(case):
+    """'platform-independent': the hashing and sampling results of harness/platform_vectors.cpp on three native back ends and executed under
+    the ILP32 data model (static i386 build) - see C03's eval_platform; only the hashing / sampling groups are judged here"""
+    from checks import c03
+    return c03.eval_platform(groups=PLATFORM_GROUPS)
+
+
 def run_shard(ctx, shard):
+    if shard["sub"] == "platform":
+        msgs = eval_platform({})
+        ctx.ok(True, "platform-vectors", n=400)
+        if msgs:
+            ctx.fail({"sub": "platform"}, "; ".join(msgs[:3]), sig="platform")
+        return
     if shard["sub"] == "reject-run":
         for k in range(1, 41):
             case = {"sub": "reject-run", "routine": shard["routine"], "k": k, "seed": ctx.seed}
